@@ -1154,6 +1154,10 @@ class CodeGenerator(StructuredCodeGenerator):
     def lower_function(self, function_name, ast):
         self.current_function = function_name
 
+        # See emit_for_end.
+        self._for_loop_depth = 0
+        self._deferred_deinits = []
+
         self.emit_def_begin(
                 "dagrt_phase_func_" + function_name,
                 self.extra_arguments + ("dagrt_state",),
@@ -2103,9 +2107,18 @@ class CodeGenerator(StructuredCodeGenerator):
                     self.expr(ubound-1)),
                 code_generator=self)
         em.__enter__()
+        self._for_loop_depth += 1
 
     def emit_for_end(self, loop_var_name):
         self.emitter.__exit__(None, None, None)
+
+        self._for_loop_depth -= 1
+        if self._for_loop_depth == 0:
+            # Variables whose last use was inside the loop nest are still
+            # needed by the remaining iterations: release them only now.
+            deferred, self._deferred_deinits = self._deferred_deinits, []
+            for variable, var_kind in deferred:
+                self.emit_variable_deinit(variable, var_kind)
 
     def emit_assign_expr(self, assignee_sym, assignee_subscript, expr):
         from dagrt.data import Array, UserType
@@ -2302,7 +2315,10 @@ class CodeGenerator(StructuredCodeGenerator):
             last_used_stmt_id = self.last_used_stmt_table[
                     variable, self.current_function]
             if inst.id == last_used_stmt_id and not is_state_variable(variable):
-                self.emit_variable_deinit(variable, var_kind)
+                if self._for_loop_depth > 0:
+                    self._deferred_deinits.append((variable, var_kind))
+                else:
+                    self.emit_variable_deinit(variable, var_kind)
 
     def emit_inst_Raise(self, inst):
         # FIXME: Reenable emitting full error message
